@@ -9,7 +9,7 @@ import os
 import sys
 
 from . import core
-from .core import Evidence, Reporter, run_tlc, need_ok
+from .core import Evidence, Reporter, run_tlc, need_ok, fr
 from .replay import Replayer, replay_all
 
 
@@ -335,7 +335,7 @@ def c02(tier):
     return finish(ev, rep)
 c04 = simple("C04", [("MC_Curve.tla", "MC_Curve_insert_TIER.cfg")],
              thorough_extra=[("MC_Curve.tla", "MC_Curve_insert2_thorough.cfg")])
-c05 = simple("C05", [("MC_Curve.tla", "MC_Curve_remove_TIER.cfg")])
+c05 = simple("C05", [("MC_Curve.tla", "MC_Curve_remove_TIER.cfg"), ("MC_Curve.tla", "MC_Curve_remove_narrow_quick.cfg")])
 def c06(tier):
     ev = Evidence("C06", tier, core.seed())
     rep = Reporter("C06", ev)
@@ -366,7 +366,50 @@ def c14(tier):
     return finish(ev, rep)
 c09 = simple("C09", [("MC_Curve.tla", "MC_Curve_deriv_TIER.cfg")])
 c11 = simple("C11", [("MC_Curve.tla", "MC_Curve_fitcurve_TIER.cfg")])
-c12 = simple("C12", [("MC_Curve.tla", "MC_Curve_fitpoints_TIER.cfg")])
+def default_nodes_equivariant(ev, rep, records):
+    """fit_points(points) without nodes, FLOAT knots: the default nodes are irrational (Chebyshev), so TLC cannot hold
+    them; what the specification fixes (Sem.tla, FitPointsClauses: default nodes = umin + (umax-umin) * t_k with t_k a
+    fixed distribution on [0, 1]) implies that the fitted control points do not change when the knot vector is shifted
+    and scaled (C18: basis functions are invariant under reparametrisation).  The same data are fitted on four affine
+    images of the knot vector - intervals starting at 0, at 1, at the original umin, and shrunk - and must agree."""
+    lib = core.import_lib()
+    n = 0
+    for t in records:
+        a = t["act"]
+        if a["name"] != "CvFitPoints" or not a.get("dflt") or t["ret"]["class"] != "ok" or t.get("ovf"):
+            continue
+        pre = t["pre"][a["obj"]]
+        U = [float(fr(x)) for x in pre["U"]]
+        data = [float(fr(x)) for x in a["data"]]
+        W = [float(fr(w)) for w in pre["W"]] or None
+        res = []
+        for k, s in ((1.0, 0.0), (1.0, 1.0 - U[0]), (0.5, 3.0), (2.0, -2.0 * U[0])):
+            c = lib.Curve(lib.KnotVector([k * u + s for u in U]))
+            if W:
+                c.weights = list(W)
+            try:
+                c.fit_points(list(data))
+                res.append((k, s, [float(x) for x in c.ctrlpoints]))
+            except Exception as e:
+                res.append((k, s, f"{type(e).__name__}: {e}"))
+        n += 1
+        ref = res[0][2]
+        bad = [r for r in res[1:] if isinstance(r[2], str) != isinstance(ref, str) or (not isinstance(ref, str) and (
+            len(r[2]) != len(ref) or any(abs(x - y) > 1e-8 * max(1.0, max(map(abs, ref))) for x, y in zip(r[2], ref))))]
+        if bad:
+            rep.violation("CvFitPoints:default nodes, float knots: result depends on where the interval lies",
+                          {"transition": t, "mode": "float", "failures": [
+                              f"knots u -> {k}*u + {s}: control points {q}, on the original knots {ref}" for k, s, q in bad]})
+    ev.validated += n
+    ev.extra["default_node_fits_compared_over_affine_images"] = n
+
+
+def c12(tier):
+    ev = Evidence("C12", tier, core.seed())
+    rep = Reporter("C12", ev)
+    res = model_replay("C12", tier, ev, rep, "MC_Curve.tla", f"MC_Curve_fitpoints_{tier}.cfg")
+    default_nodes_equivariant(ev, rep, res.records)
+    return finish(ev, rep)
 c17 = simple("C17", [("MC_KnotVector.tla", "MC_KvUnion_TIER.cfg")])
 c19 = simple("C19", [("MC_Misc.tla", "MC_Misc_project_TIER.cfg")])
 c20 = simple("C20", [("MC_Misc.tla", "MC_Misc_intersect_TIER.cfg")])
@@ -690,6 +733,31 @@ def replay_file(prop, path):
         if fails_all:
             print(f"VIOLATION property={prop} replay={path}")
             for x in fails_all:
+                print("  " + x)
+            return 1
+        print(f"replay of {path}: conforms now")
+        return 0
+    if t is not None and doc.get("key", "").startswith("CvFitPoints:default nodes"):
+        ev = Evidence(prop, "quick", core.seed())
+        rep = Reporter(prop, ev)
+        default_nodes_equivariant(ev, rep, [t])
+        if rep.new:
+            print(f"VIOLATION property={prop} replay={path}")
+            for x in rep.new[0][1]["failures"]:
+                print("  " + x)
+            return 1
+        print(f"replay of {path}: conforms now")
+        return 0
+    if t is not None and doc.get("key", "").startswith("crossmode:"):
+        ev = Evidence(prop, "quick", core.seed())
+        rep = Reporter(prop, ev)
+
+        class _One:
+            records = [dict(t, d=1)]
+        cross_mode(ev, rep, "x", "y", {("x", "y"): _One})
+        if rep.new:
+            print(f"VIOLATION property={prop} replay={path}")
+            for x in rep.new[0][1]["failures"]:
                 print("  " + x)
             return 1
         print(f"replay of {path}: conforms now")
